@@ -116,7 +116,8 @@ CLAIMED = {
                 "after a complete number a in [1,99], the first word of a number b in [0,99] is accepted exactly when a is a round ten (en: from twenty, es: from thirty) and b is a unit - "
                 "the two are then the spelling of a + b - and in every other case it is refused outright (never as a link word) with the state untouched, so that the scanner theorem "
                 "'a refused word ends the number and starts a new one' (C07) applies: 'twenty twelve' is 20 12, 'ten five' is 10 5, 'five zero' is 5 0; dictated digits: after a non-zero "
-                "digit every further digit word, zero included, is refused outright. NOT proved: the pair sweep for fr, pt, it, de, nl and with the conjunction as joiner "
+                "digit every further digit word, zero included, is refused outright; Portuguese: without the conjunction the first word of b is always refused outright (a number below one hundred may only be added after 'e'). "
+                "NOT proved: the pair sweep for fr, it, de, nl and with the conjunction as joiner "
                 "(bounded: exhaustive sweep in the thorough tier).",
         "note": TRUST + MECH,
         "design_ref": "DESIGN.md §12.3 C08",
@@ -188,7 +189,8 @@ CLAIMED = {
                 "include them (exact contracts, C12); for " + LANGS7 + " the zero word and every guard that inspects the number so far are proved against grammar "
                 "rows that are stated over values with leading zeros (found and fixed: Italian 'un milione' after a zero). COMPOSITION, proved for English, Spanish, French (n below 10^12) and Portuguese (n below 10^6): "
                 "for every z >= 0 and every n in range, z zero words followed by the spelling of n are accepted as ONE number whose builder holds exactly z leading zeros and the digits of n, "
-                "and the text is z zeros followed by those digits (spelling drivers, see C01); a zero word after a non-zero number is refused outright (pair theorem of C08, en/es). "
+                "and the text is z zeros followed by those digits (spelling drivers, see C01); a zero word offered to a builder that already holds a digit is refused outright with the digits untouched, "
+                "for every such state (lemma_<c>_zero_after, en / es / fr / pt), so the scanner closes the number and the zero starts a new numeral. "
                 "NOT proved: the composition for it, de, nl and Portuguese from 10^6 up (bounded evidence only).",
         "note": TRUST + MECH,
         "design_ref": "DESIGN.md §12.3 C16, §13",
